@@ -248,8 +248,8 @@ func VF_C01_ping() {
 
 func c01Case(word string, name string) []byte { return vfCase(name, word) }
 
-func VF_C01_set_quick()    { c01Set(1) }
-func VF_C01_set_thorough() { c01Set(2) }
+func VF_C01_set_quick()    { c01Set(2) }
+func VF_C01_set_thorough() { c01Set(3) }
 
 func c01Set(maxOpt int) {
 	w := c01PreN(vBytes, 1, 1)
